@@ -640,6 +640,9 @@ func (l *Line) ByteArray(name string, value []byte) *Line {
 	if rem <= len(value)*3 { // each byte occupies 3 characters
 		copy(l.buffer[cap(l.buffer)-len("TRUNCATED "):], []byte("TRUNCATED "))
 		rem = rem - len("TRUNCATED ")
+		if rem < 0 { // fewer than 10 bytes left: nothing of the value fits
+			rem = 0
+		}
 		value = value[:rem/3]
 		truncated = true
 	}
